@@ -1,6 +1,7 @@
 import HotstuffModel.Model.Aggregator
 import HotstuffModel.Model.Leader
 import HotstuffModel.Generated.Switches
+import HotstuffModel.Generated.Guards
 /-
 One consensus node = `Core` + `Proposer` + consensus `Synchronizer` + `PayloadWaiter` + `Helper`
 and the channels between them (consensus/src/{core,proposer,synchronizer,mempool,helper}.rs),
@@ -143,11 +144,11 @@ def getParent (c : Committee) (s : Node) (b : Block) : Node × Parent :=
 /-! ### core.rs -/
 
 def advanceRound (s : Node) (r : Nat) (ev : Evidence) : Node :=
-  if r < s.round then s
+  if Gen.advanceStale r s.round then s
   else ({ s with round := r + 1, agg := s.agg.cleanup (r + 1) }).emit (.entered (r + 1) ev)
 
 def updateHighQC (s : Node) (qc : QC) : Node :=
-  if qc.round > s.highQC.round then { s with highQC := qc } else s
+  if Gen.newHighQC qc.round s.highQC.round then { s with highQC := qc } else s
 
 def processQC (s : Node) (qc : QC) : Node := (s.advanceRound qc.round (.qc qc)).updateHighQC qc
 
@@ -155,7 +156,7 @@ def generateProposal (s : Node) (tc : Option TC) : Node :=
   ({ s with propQ := s.propQ ++ [PMsg.make s.round s.highQC tc] }).emit (Out.make s.round s.highQC tc)
 
 def handleVote (c : Committee) (s : Node) (v : Vote) : Node :=
-  if v.round < s.round then s
+  if Gen.voteStale v.round s.round then s
   else match v.verify c with
     | .error _ => s
     | .ok _ =>
@@ -167,7 +168,7 @@ def handleVote (c : Committee) (s : Node) (v : Vote) : Node :=
         if s.name == c.leader s.round then s.generateProposal none else s
 
 def handleTimeout (c : Committee) (s : Node) (t : Timeout) : Node :=
-  if t.round < s.round then s
+  if Gen.timeoutStale t.round s.round then s
   else match t.verify c with
     | .error _ => s
     | .ok _ =>
@@ -184,7 +185,7 @@ def handleTC (c : Committee) (s : Node) (tc : TC) : Node :=
   match tc.verify c with
   | .error _ => s
   | .ok _ =>
-    if tc.round < s.round then s
+    if Gen.tcStale tc.round s.round then s
     else
       let s := s.advanceRound tc.round (.tc tc)
       if s.name == c.leader s.round then s.generateProposal (some tc) else s
@@ -205,20 +206,20 @@ def maxRounds : List Nat → Option Nat
 /-- Safety rule 2 of `make_vote`; `none` is the `expect("Empty TC")` panic (the maximum is
 computed whenever the block carries a TC). -/
 def safetyRule2 (b : Block) : Option Bool :=
-  let viaQC := b.qc.round + 1 == b.round
+  let viaQC := Gen.viaQC b.qc.round b.round
   match b.tc with
   | none => some viaQC
   | some tc =>
     match maxRounds tc.highQcRounds with
     | none => none
-    | some m => some (viaQC || (tc.round + 1 == b.round && b.qc.round ≥ m))
+    | some m => some (viaQC || (Gen.viaTCRound tc.round b.round && Gen.viaTCHighQC b.qc.round m))
 
 /-- `Core::make_vote`. -/
 def makeVote (s : Node) (b : Block) : Node × Option Vote :=
   match safetyRule2 b with
   | none => (s.fail .emptyTC, none)
   | some rule2 =>
-    if b.round > s.lastVoted && rule2 then
+    if Gen.safetyRule1 b.round s.lastVoted && rule2 then
       (({ s with lastVoted := max s.lastVoted b.round }).emit (.voted b),
        some { hash := b.digest, round := b.round, author := s.name,
               sig := ⟨s.name, .vote b.digest b.round⟩ })
@@ -240,10 +241,10 @@ Fuel is the depth of the hash chain (a hash chain cannot cycle). -/
 def commitWalk (c : Committee) (s : Node) : Nat → Block → List Block → Walk
   | 0, _, acc => .done acc
   | fuel + 1, cur, acc =>
-    if s.lastCommitted + 1 < cur.round then
+    if Gen.walkOn cur.round s.lastCommitted then
       match (getParent c s cur).2 with
       | .found a =>
-        if a.round ≤ s.lastCommitted then .done acc
+        if Gen.walkStop a.round s.lastCommitted then .done acc
         else commitWalk c s fuel a (acc ++ [a])
       | .parked => .panic
       | .error => .error
@@ -251,7 +252,7 @@ def commitWalk (c : Committee) (s : Node) : Nat → Block → List Block → Wal
 
 /-- `Core::commit`; the `Bool` says whether it returned `Ok`. -/
 def commit (c : Committee) (s : Node) (b : Block) : Node × Bool :=
-  if s.lastCommitted ≥ b.round then (s, true)
+  if Gen.alreadyCommitted b.round s.lastCommitted then (s, true)
   else
     match commitWalk c s (digestDepth b.digest + 1) b [] with
     | .panic => (s.fail .missingAncestorCommit, false)
@@ -283,7 +284,7 @@ def sendVote (c : Committee) (s : Node) (v : Vote) : Node :=
 /-- `process_block` after the commit attempt: round check, `make_vote`, send. -/
 def voteStage (c : Committee) (s : Node) (ok : Bool) (b : Block) : Node :=
   if !ok || s.panic.isSome then s
-  else if b.round != s.round then s
+  else if Gen.wrongRound b.round s.round then s
   else
     match s.makeVote b with
     | (s', none) => s'
@@ -300,7 +301,7 @@ def beforeCommit (s : Node) (b0 b1 b : Block) : Node :=
 
 /-- `process_block` once both ancestors are at hand: store, tell the proposer, commit, vote. -/
 def processBlockTail (c : Committee) (s : Node) (b0 b1 b : Block) : Node :=
-  if b0.round + 1 == b1.round then
+  if Gen.twoChainRule b0.round b1.round then
     voteStage c (commit c (beforeCommit s b0 b1 b) b0).1 (commit c (beforeCommit s b0 b1 b) b0).2 b
   else
     voteStage c (afterStore s b0 b1 b) true b
